@@ -45,12 +45,13 @@ def shard_env():
     return env
 
 
-def run_shard_inprocess(prop, tier, seed, shard):
+def run_shard_inprocess(prop, tier, seed, shard, partial_path=None):
     from vmon import core
     import random
     import numpy as np
     mod = load_prop(prop)
     ctx = core.Ctx(prop, tier, seed, shard)
+    ctx.partial_path = partial_path
     s = int(hashlib.sha1(f'{seed}/{shard.get("name")}'.encode()).hexdigest()[:8], 16)
     random.seed(s)
     np.random.seed(s % (2**32))
@@ -84,12 +85,28 @@ def _one_shard(prop, tier, seed, shard, tmpdir, idx, default_timeout):
         p = subprocess.run([PY, os.path.join(VERIF, 'check'), '--shard-run', prop, tier, str(seed), sp, op],
                            env=shard_env(), capture_output=True, text=True, timeout=timeout, cwd=VERIF)
     except subprocess.TimeoutExpired:
-        return {'shard': shard, 'broken': f'watchdog timeout after {timeout}s', 'wall_s': time.time() - t0}
+        return _partial(op, {'shard': shard, 'broken': f'watchdog timeout after {timeout}s', 'wall_s': time.time() - t0})
     if p.returncode != 0 or not os.path.exists(op):
-        return {'shard': shard, 'broken': f'shard exited {p.returncode}', 'stderr': p.stderr[-3000:], 'wall_s': time.time() - t0}
+        return _partial(op, {'shard': shard, 'broken': f'shard exited {p.returncode}', 'stderr': p.stderr[-3000:], 'wall_s': time.time() - t0})
     with open(op) as f:
         res = json.load(f)
     res['stderr_tail'] = p.stderr[-500:] if p.stderr else ''
+    return res
+
+
+def _partial(op, res):
+    """a shard that was killed or crashed: keep what its monitors had observed (flushed by Ctx.dump_partial)."""
+    pp = op + '.partial'
+    if os.path.exists(pp):
+        try:
+            with open(pp) as f:
+                part = json.load(f)
+            part['broken'] = res['broken'] + ' (partial results kept)'
+            part['stderr'] = res.get('stderr', '')
+            part['wall_s'] = res['wall_s']
+            return part
+        except Exception:
+            pass
     return res
 
 
@@ -138,7 +155,8 @@ def finish(prop, tier, seed, mod, results, wall, replay=None):
         shard_walls[name] = round(r.get('wall_s', 0), 1)
         if 'broken' in r:
             broken.append(f"shard {name}: {r['broken']} {r.get('stderr', '')[-800:]}")
-            continue
+            if 'evaluations' not in r:
+                continue
         evaluations += r['evaluations']
         case_total += r['case_total']
         for k, v in r['hits'].items():
@@ -268,7 +286,7 @@ def main(argv=None):
             faulthandler.enable()
         except Exception:  # pragma: no cover
             pass
-        res = run_shard_inprocess(prop, tier, int(seed), shard)
+        res = run_shard_inprocess(prop, tier, int(seed), shard, partial_path=op + '.partial')
         with open(op, 'w') as f:
             json.dump(res, f)
         return 0
